@@ -1093,6 +1093,101 @@ def inputs_for(rng, members, spec_types, max_keys):
         yield mask, d
 
 
+# ---------------------------------------------------------------------------
+# the constructor call the real builder emits (tie of kernel K107a)
+# ---------------------------------------------------------------------------
+
+class CallSpy:
+    """records the text of every method CodeBuilder compiles, with the class it is compiled for and whether the
+    builder ran before ('pre') or after ('post') @dataclass processed that class"""
+
+    def __init__(self):
+        from mashumaro.core.meta.code import builder as B
+        self.B = B
+        self.orig = B.CodeBuilder.compile
+        self.rec = []
+        spy = self
+
+        def compile_(self_):
+            try:
+                spy.rec.append((self_.cls, "post" if "__dataclass_fields__" in self_.cls.__dict__ else "pre",
+                                self_.lines.as_text()))
+            except Exception:  # noqa: BLE001 - a changed builder: no text, the tie reports "no call recorded"
+                pass
+            return spy.orig(self_)
+
+        B.CodeBuilder.compile = compile_
+
+    def restore(self):
+        self.B.CodeBuilder.compile = self.orig
+
+    def calls_of(self, cls, timing):
+        out = []
+        for c, t, text in self.rec:
+            if c is cls and t == timing and "_from_dict" in text.split("(", 1)[0]:
+                pc = parse_call(text)
+                if pc is not None or "return cls" in text:
+                    out.append(pc)
+        return out
+
+    def forget(self, classes):
+        self.rec = [r for r in self.rec if r[0] not in classes]
+
+
+def parse_call(text):
+    """`return cls(__a, b=__b, **kwargs)` -> (True, ['b'], ['a']); None when there is no such single line"""
+    import re
+    hits = [m for m in (re.match(r"^\s*return cls\((.*)\)\s*$", ln) for ln in text.splitlines()) if m]
+    if len(hits) != 1:
+        return None
+    inner = hits[0].group(1)
+    pos, kw, addkw, stage = [], [], False, 0
+    for a in (inner.split(", ") if inner else []):
+        if a == "**kwargs":
+            addkw, stage = True, 2
+        elif "=" in a:
+            n, _, v = a.partition("=")
+            if v != "__" + n or stage > 1:
+                return None
+            kw.append(n)
+            stage = 1
+        elif a.startswith("__") and stage == 0:
+            pos.append(a[2:])
+        else:
+            return None
+    return addkw, kw, pos
+
+
+def coq_calls_idx(lays, calls, shard):
+    """Coq pass of the K107a tie: indices of `calls` where BindCasesK107a.call_ok fails; None when Coq failed"""
+    br = vlib.coq_make(["theories/Wire.vo", "theories/PyK.vo", "gen/K4.vo", "gen/K17.vo", "gen/K107a.vo",
+                        "theories/BindCasesK107a.vo"])
+    if not br.ok:
+        return None, "tie does not build: " + (br.error or "")
+    files = []
+    for si in range(0, max(len(calls), 1), shard):
+        chunk = calls[si:si + shard]
+        used = sorted({c[0] for c in chunk})
+        local = {li: n for n, li in enumerate(used)}
+        txt = vlib.CASE_HEADER.format(imports="Bind BindCases BindCasesK107a", gen_imports="")
+        txt += "Definition lays : list lay :=\n  [" + ";\n   ".join(lays[li] for li in used) + "].\n"
+        txt += "Definition calls : list (nat * bool * list string * list string) :=\n  [" + ";\n   ".join(
+            "(%d%%nat, %s, %s, %s)" % (local[li], coq_bool(b), coq_list([coq_str(x) for x in kw]),
+                                      coq_list([coq_str(x) for x in pos])) for li, b, kw, pos in chunk) + "].\n"
+        txt += "Eval vm_compute in (bad_idx (call_ok lays) calls).\n"
+        files.append(("c07_calls_%d" % (si // shard), txt))
+    res = vlib.coq_eval_many(files, timeout=1500, jobs=6)
+    bad = []
+    for n, (ok, out) in enumerate(res):
+        if not ok:
+            return None, out[-3000:]
+        idx = vlib.parse_nat_list(out)
+        if idx is None:
+            return None, "unparsable coq output: " + out[-1500:]
+        bad.extend(n * shard + i for i in idx)
+    return bad, ""
+
+
 def run(ctx: vlib.Ctx):
     ctx.coverage["rule"] = (
         "random dataclass hierarchies (1-3 classes, required/default/factory/kw_only (field, KW_ONLY marker, decorator)/"
@@ -1108,8 +1203,9 @@ def run(ctx: vlib.Ctx):
     br = ctx.theorems("props/C07_bind.vo", [
         "C07_binding_partial", "C07_binding_post", "C07_binding", "C07_error", "C07_null_wins",
         "C07_keys_are_code", "C07_first_key_wins", "C07_nullable_is_code",
+        "C07_default_is_code", "C07_assembly_is_code", "C07_arg_step_is_code", "C07_kw_step_is_code",
         "C07_positional_prefix", "C07_noninit_unread", "C07_sticky_irrelevant", "C07_factory_fresh",
-        "C07_binding_refuted", "C07_noninit_refuted_plain_base"], kernels=["K4", "K17"])
+        "C07_binding_refuted", "C07_noninit_refuted_plain_base"], kernels=["K4", "K17", "K107a"])
     if br.ok and not ctx.quick():
         rc, out, _ = vlib.run(["timeout", "900", "coqchk", "-silent", "-o"] + vlib.COQ_FLAGS[:9] + ["VerifProps.C07_bind"],
                               cwd=vlib.COQ, timeout=930)
@@ -1149,6 +1245,8 @@ def run(ctx: vlib.Ctx):
     oracle_bad: set[int] = set()
     todo = spectrum_programs(ctx.rng)
     ctx.coverage["spectrum_programs"] = len(todo)
+    spy = CallSpy()                  # restored right after the loop
+    calls, call_index, call_missing = [], [], []
     for pi in range(nprog + len(todo)):
         prog = todo[pi] if pi < len(todo) else make_program(ctx.rng, nmax)
         src = render(prog)
@@ -1236,10 +1334,24 @@ def run(ctx: vlib.Ctx):
                                  {"source": src, "spec": spec, "entry": entry, "input": d, "observed": show(outcome),
                                   "expected": what},
                                  sig)
+            # (T) K107a: the constructor call(s) the real builder emitted for this class at this timing
+            if not prog.get("oracle_only"):
+                got = spy.calls_of(mod.TARGET, timing)
+                if not got or None in got:
+                    call_missing.append((len(progs) - 1, entry, timing))
+                    ctx.hist("emitted_calls", "not recorded")
+                for pc in got:
+                    if pc is not None:
+                        calls.append((li,) + pc)
+                        call_index.append((len(progs) - 1, entry, timing))
+                        ctx.hist("emitted_calls", "%s/%s/%s" % ("positional" if pc[2] else "no-positional",
+                                                                "keyword" if pc[1] else "no-keyword",
+                                                                "**kwargs" if pc[0] else "no-kwargs"))
             if len(ctx.coverage["samples"]) < 4:
                 ctx.sample({"classes": src[len(PRELUDE):], "entry": entry, "timing": timing,
                             "signature": [sigpos, sigkw]})
 
+    spy.restore()
     # (M) correspondence: model vs implementation on every run above; in the same Coq pass the Coq reference
     # semantics (ref_decode) is compared with the model: model <> reference must hold exactly where the python
     # oracle rejects the real outcome (the modelled known findings)
@@ -1273,6 +1385,32 @@ def run(ctx: vlib.Ctx):
             ctx.coverage["model_differs_from_reference"] = len(rbad)
             if diff:
                 ctx.not_shown("correspondence " + name2, detail)
+    # (T) the translated argument assembly (kernel K107a run over the layout inside Coq) against the emitted calls
+    name3 = "K107a-argument-assembly-vs-emitted-call"
+    t_k107a = time.time()
+    if not ctx.kernel_report.get("K107a", {}).get("ok"):
+        why = "kernel K107a not translated: " + str(ctx.kernel_report.get("K107a", {}).get("error"))
+        ctx.correspondence(name3, 0, -1, why)
+        ctx.not_shown("correspondence " + name3, why)
+    else:
+        cbad, clog = coq_calls_idx(lays, calls, ctx.budget(400, 800))
+        if cbad is None:
+            ctx.correspondence(name3, len(calls), -1, clog)
+            ctx.not_shown("correspondence " + name3, clog)
+        else:
+            detail = ""
+            if cbad:
+                pi, entry, timing = call_index[cbad[0]]
+                detail = "first of %d: entry %s timing %s emitted (kwargs, keyword, positional) = %r\n%s" % (
+                    len(cbad), entry, timing, calls[cbad[0]][1:], progs[pi]["src"][len(PRELUDE):])
+            elif call_missing:
+                pi, entry, timing = call_missing[0]
+                detail = "first of %d: no single `return cls(...)` recorded for entry %s timing %s\n%s" % (
+                    len(call_missing), entry, timing, progs[pi]["src"][len(PRELUDE):])
+            ctx.correspondence(name3, len(calls) + len(call_missing), len(cbad) + len(call_missing), detail)
+            if cbad or call_missing:
+                ctx.not_shown("correspondence " + name3, detail)
+    ctx.coverage["phase_seconds"]["coq_calls"] = round(time.time() - t_k107a, 1)
     for info in progs:
         unload(info["mod"])
 
